@@ -307,6 +307,7 @@ def run(chk, ctx):
     r7(chk, ctx)
     r8(chk, ctx)
     from . import round3
+    round3.tidy_up_callers(chk, ctx)            # held branch events are released only when the fan-out is torn down
     round3.retained_ack(chk, ctx)
     round3.drop_arm_acks_directly(chk, ctx)
     chk.assume("the broker redelivers unacknowledged messages (trusted)")
